@@ -208,6 +208,7 @@ pub fn replay_main(args: &[String]) -> i32 {
             let what = recj.get("chain").and_then(|c| c.get(0)).and_then(|f| f.get("n")).and_then(|n| n.as_str())
                 .or_else(|| recj.get("f").and_then(|n| n.as_str()))
                 .or_else(|| recj.get("fam").and_then(|n| n.as_str()))
+                .or_else(|| detail.get("msg").and_then(|n| n.as_str()).map(|m| &m[..m.len().min(60)]))
                 .unwrap_or("");
             let key = format!("{why} [{what}]");
             let n = cats.entry(key).or_insert(0);
